@@ -104,7 +104,7 @@ func newModeN(p *UploadPlan, rec *upTransport) *modeN {
 				}
 			}
 			w.WriteHeader(status)
-			if p.RespBody != "" && status != 204 && status != 304 {
+			if p.RespBody != "" && status/100 == 2 && status != 204 {
 				// a success with a (useless) body, sent at once; then the server
 				// neither reads the rest of the upload nor lets go of the connection
 				io.WriteString(w, "stored, thank you\n")
